@@ -584,6 +584,7 @@ func (in *Inst) instr(ins ssa.Instruction, st *State) {
 			}
 			e.assume(st.reach, sAnd(sApp("<=", lo, v.Fs[0].T), sApp("<", v.Fs[0].T, fmt.Sprint(len(x.States)))))
 		}
+		in.selectAfter(x, st)
 	case *ssa.Range, *ssa.Next:
 		if !e.abstract {
 			e.fail("range over string or map in %s", in.fn.Name())
